@@ -26,6 +26,9 @@ Definition atoms (a : action) : list atom :=
   | PWrite k stamps => [(k, fmap (fun c => add_samples c (map (fun t => (t, t)) stamps)))]
   | DelChan k => [(k, fun _ => None)]
   | PDelete k a b => [(k, fmap (del_range a b))]
+  | WriteIdx g stamps => [(idx_key g, fmap (fun c => add_samples c (map (fun t => (t, t)) stamps)))]
+  | WriteData g stamps => [(data_key g, fmap (fun c => add_samples c (map (fun t => (t, enc g t)) stamps)))]
+  | DeleteIdx g a b => [(idx_key g, fmap (del_range a b))]
   | Noop => []
   end.
 
@@ -41,7 +44,7 @@ Qed.
 
 Lemma step_atoms st a : step st a = apply_atoms st (atoms a).
 Proof.
-  destruct a as [g s|g a b idx|k|k s|k|k a b|]; simpl; unfold apply_atoms, apply_atom; simpl.
+  destruct a as [g s|g a b idx|k|k s|k|k a b|g s|g s|g a b|]; simpl; unfold apply_atoms, apply_atom; simpl.
   - rewrite !upd_alter. reflexivity.
   - destruct idx; simpl; rewrite !upd_alter; reflexivity.
   - apply map_eq. intros i. destruct (decide (i = k)) as [->|Hne].
@@ -54,6 +57,9 @@ Proof.
   - apply map_eq. intros i. destruct (decide (i = k)) as [->|Hne].
     + rewrite lookup_partial_alter, lookup_delete. reflexivity.
     + rewrite lookup_partial_alter_ne, lookup_delete_ne by congruence. reflexivity.
+  - rewrite upd_alter. reflexivity.
+  - rewrite upd_alter. reflexivity.
+  - rewrite upd_alter. reflexivity.
   - rewrite upd_alter. reflexivity.
   - reflexivity.
 Qed.
@@ -158,11 +164,14 @@ Proof. intros H [c|]; simpl; [rewrite H|]; reflexivity. Qed.
 (* disjoint channel sets: every pair of atoms is on different keys *)
 Lemma atoms_keys a : forall x, In x (atoms a) -> In x.1 (chans a).
 Proof.
-  destruct a as [g s|g a b idx|k|k s|k|k a b|]; simpl; intros x Hx.
+  destruct a as [g s|g a b idx|k|k s|k|k a b|g s|g s|g a b|]; simpl; intros x Hx.
   - destruct Hx as [<-|[<-|[]]]; simpl; auto.
   - destruct idx; simpl in Hx.
     + destruct Hx as [<-|[<-|[]]]; simpl; auto.
     + destruct Hx as [<-|[]]; simpl; auto.
+  - destruct Hx as [<-|[]]; simpl; auto.
+  - destruct Hx as [<-|[]]; simpl; auto.
+  - destruct Hx as [<-|[]]; simpl; auto.
   - destruct Hx as [<-|[]]; simpl; auto.
   - destruct Hx as [<-|[]]; simpl; auto.
   - destruct Hx as [<-|[]]; simpl; auto.
@@ -182,7 +191,7 @@ Proof.
     apply elem_of_list_In in Hax, Hay.
     intros Heq. apply (Hk ax.1); [apply atoms_keys; assumption|].
     rewrite Heq. apply atoms_keys; assumption. }
-  destruct x as [g s|g a b idx|k|k s|k|k a b|], y as [g' s'|g' a' b' idx'|k'|k' s'|k'|k' a' b'|];
+  destruct x as [g s|g a b idx|k|k s|k|k a b|g s|g s|g a b|], y as [g' s'|g' a' b' idx'|k'|k' s'|k'|k' a' b'|g' s'|g' s'|g' a' b'|];
     try discriminate; try (simpl; fa; fail).
   - (* Write / Write, same group, disjoint stamps *)
     apply andb_true_iff in H. destruct H as [Hg Hs]. apply Z.eqb_eq in Hg. subst g'.
